@@ -29,7 +29,7 @@ BOUNDS = {  # property -> (quick max, thorough max, description of the enumerate
     'C14': (2, 2, 'resolve: ill-formed registries of 0..3 entries, ids 0..len+2 and the u32 extremes; decode: every truncation, 3 bit flips per byte and a byte insertion at every position of the encodings of ~18 registries (no panic, successful decodes re-encode to the consumed bytes); JSON (serde_json): every truncation, 9 byte substitutions, a deletion and an insertion at every position of the JSON text of the registries with <= 200 encoded bytes, plus oversized numbers, duplicate / unknown keys and 5000-deep nesting (no panic, accepted texts are registries that survive a JSON round trip)'),
     'C16': (2, 2, 'all pairs from a pool of 16 types (wrappers of wrappers, arrays of different length, PhantomData instantiations)'),
     'C17': (2, 2, 'all triples of 4 field kinds in named / unnamed / tuple position, variant builders, portable builders'),
-    'C18': (4, 5, 'all strings of length <= max over a 14-symbol class-representative alphabet (one symbol per gap of the ASCII table around the identifier classes); all triples of 8 segments; Path::new / new_with_replace / Display'),
+    'C18': (4, 5, 'all strings of length <= max over a 14-symbol class-representative alphabet (one symbol per gap of the ASCII table around the identifier classes) plus every single ASCII character in head / tail / after-prefix position; all triples of 8 segments; Path::new / new_with_replace / Display'),
 }
 
 
